@@ -5,6 +5,7 @@ import (
 	"encoding/hex"
 	"errors"
 	"fmt"
+	"math/rand"
 	"os"
 	"sort"
 	"strings"
@@ -62,6 +63,23 @@ type Cluster struct {
 	Timeout     time.Duration
 	// Byz holds, per faulty participant, the key it signs with instead of its share (fault kind "byzsig").
 	Byz map[uint64]bls.SecretKey
+	// JitterUs > 0: every message is held back for a random time below that many microseconds before it is delivered
+	JitterUs int
+	jmu      sync.Mutex
+	jrnd     *rand.Rand
+}
+
+func (c *Cluster) jitter() {
+	if c.JitterUs <= 0 {
+		return
+	}
+	c.jmu.Lock()
+	if c.jrnd == nil {
+		c.jrnd = rand.New(rand.NewSource(int64(c.JitterUs)*7919 + int64(len(c.Order))))
+	}
+	d := c.jrnd.Intn(c.JitterUs)
+	c.jmu.Unlock()
+	time.Sleep(time.Duration(d) * time.Microsecond)
 }
 
 type netSender struct {
@@ -176,7 +194,8 @@ func (s *netSender) Prepare(ctx context.Context, recipient *core.Endpoint, accou
 		return errors.New("no such peer")
 	}
 	kind := s.c.fault("prepare", s.from.ID, to.ID)
-	s.c.Log.Emit(Ev{"ev": "Msg", "type": "prepare", "from": s.from.ID, "to": to.ID, "fault": kind})
+	s.c.jitter()
+	s.c.Log.Emit(Ev{"ev": "Msg", "type": "prepare", "from": s.from.ID, "to": to.ID, "fault": kind, "account": account})
 	if kind == "lost" {
 		return errors.New("verif: message lost")
 	}
@@ -204,7 +223,8 @@ func (s *netSender) Execute(ctx context.Context, recipient *core.Endpoint, accou
 		return errors.New("no such peer")
 	}
 	kind := s.c.fault("execute", s.from.ID, to.ID)
-	s.c.Log.Emit(Ev{"ev": "Msg", "type": "execute", "from": s.from.ID, "to": to.ID, "fault": kind})
+	s.c.jitter()
+	s.c.Log.Emit(Ev{"ev": "Msg", "type": "execute", "from": s.from.ID, "to": to.ID, "fault": kind, "account": account})
 	if kind == "lost" {
 		return errors.New("verif: message lost")
 	}
@@ -237,7 +257,8 @@ func (s *netSender) Commit(ctx context.Context, recipient *core.Endpoint, accoun
 		return nil, nil, errors.New("no such peer")
 	}
 	kind := s.c.fault("commit", s.from.ID, to.ID)
-	s.c.Log.Emit(Ev{"ev": "Msg", "type": "commit", "from": s.from.ID, "to": to.ID, "fault": kind})
+	s.c.jitter()
+	s.c.Log.Emit(Ev{"ev": "Msg", "type": "commit", "from": s.from.ID, "to": to.ID, "fault": kind, "account": account})
 	defer s.commitReturned(to.ID)
 	if kind == "lost" {
 		s.waitCommitTurn(to.ID)
@@ -390,7 +411,8 @@ func (s *netSender) SendContribution(ctx context.Context, recipient *core.Endpoi
 	}
 	kind := s.c.fault("contribute.req", s.from.ID, to.ID)
 	rkind := s.c.fault("contribute.rep", to.ID, s.from.ID)
-	s.c.Log.Emit(Ev{"ev": "Msg", "type": "contribute", "from": s.from.ID, "to": to.ID, "fault": kind, "rfault": rkind})
+	s.c.jitter()
+	s.c.Log.Emit(Ev{"ev": "Msg", "type": "contribute", "from": s.from.ID, "to": to.ID, "fault": kind, "rfault": rkind, "account": account})
 	if kind == "lost" {
 		return bls.SecretKey{}, nil, errors.New("verif: message lost")
 	}
